@@ -443,8 +443,8 @@ RCP<const Basic> load_basic(Archive &ar, RCP<const Infty> &)
 {
     RCP<const Number> direction;
     ar(direction);
-    // the direction is 1, 0 (complex infinity) or -1
-    check_loaded(Inf->is_canonical(direction));
+    // the direction is the Integer 1, 0 (complex infinity) or -1
+    check_loaded(is_a<Integer>(*direction) and Inf->is_canonical(direction));
     return Infty::from_direction(direction);
 }
 template <class Archive>
